@@ -21,7 +21,8 @@ CHECKS = {
                 "(collisions included): == iff same class and pairwise-equal fields, symmetry, transitivity, reflexivity, != "
                 "is the negation, == implies equal hashes. A concrete-alphabet family (real hash) covers 1/1.0/True, NaN, "
                 "kw mappings, sibling classes, dict/set interchangeability, FrozenInstanceError on rebinding and operation "
-                "histories (solver-enumerated selectors with a coverage query).",
+                "histories (solver-enumerated selectors with a coverage query)."
+                " User classes include expr_dataclass(init=False), a three-level legacy hierarchy; reflexivity is also checked with float nan in every scalar field.",
         "design_ref": "DESIGN.md §4 C01",
         "note": "Trusted: the UF model of hash (equal input => equal hash, nothing else), z3 string equality, the harness's "
                 "field-wise oracle. Real dict bucket placement and python -O are outside the claim.",
@@ -32,7 +33,8 @@ CHECKS = {
         "text": "Bounded symbolic model checking: for every expression skeleton up to depth 2 (thorough: depth 3 over a reduced "
                 "alphabet) the four real evaluator entry points are executed on z3 proxies and z3 proves per path that the "
                 "result equals an independent denotation for every environment (unbounded Int, exact Real, 64-bit BV in a "
-                "stated box for bitwise operators); exceptions are compared by class, unknown variables by name.",
+                "stated box for bitwise operators); exceptions are compared by class, unknown variables by name."
+                " Skeleton extras: unbound function / aggregate / record names, one-tuple subscripts (a[(i,)] is not a[i]), conditionals whose condition is a number with an undefined unselected branch.",
         "design_ref": "DESIGN.md §4 C02",
         "note": "Trusted: the proxies' model of Python arithmetic (validated on every run against CPython on a grid of "
                 "operands), pv/refsem.py as the meaning of each node, z3. Floats are modelled as exact reals. Shapes beyond "
@@ -46,7 +48,8 @@ CHECKS = {
                 "operators, comparison/logical constructor methods and 3-atom chains are run twice per explored path - on "
                 "Variables through the real overloaded operators (tree then evaluated) and directly on the environment's z3 "
                 "proxies - and z3 proves equality for every environment and every c. A 2x2 symbolic matrix family decides "
-                "operand order of sums/products; ordering comparisons are asserted to raise TypeError.",
+                "operand order of sums/products; ordering comparisons are asserted to raise TypeError."
+                " Operand kinds include trees pymbolic's own zero test calls zero (0//x, 0%x, 3 - 0//x, ...); chains of two logical constructor methods; ordering comparisons on 14 further node kinds incl. NaN.",
         "design_ref": "DESIGN.md §4 C03",
         "note": "Trusted: proxies' arithmetic model (self-tested per run), the uncached evaluator as the meaning of a tree "
                 "(itself checked by C02), z3. Integer and rational environments are separate families; floats are exact reals.",
@@ -59,7 +62,8 @@ CHECKS = {
                 "symbolic boolean per designated node, the rewritten leaf a symbolic selector; the explorer forks on them with z3 "
                 "feasibility checks and a coverage query proves no assignment was skipped. Per path the observed handler "
                 "invocation / walk trace / rebuilt tree / collector fold / forwarded arguments are compared with an independent "
-                "specification, for 8 user class hierarchies and every node kind at depth 1-2 plus every constant in every slot.",
+                "specification, for 8 user class hierarchies and every node kind at depth 1-2 plus every constant in every slot."
+                " Foreign objects include number classes registered at check time (alone and inside trees).",
         "design_ref": "DESIGN.md §4 C04",
         "note": "Trusted: the harness's dispatch spec (first class in the MRO whose handler the mapper has) and its notion of a "
                 "node's children (expression-valued dataclass fields). Order among a node's children is not constrained.",
@@ -74,7 +78,8 @@ CHECKS = {
                 "the identity, combine, collector, walk, substitution and CSE-mixin mappers; handler invocation counts per key; "
                 "all 72 dependency-flag settings; for Cached/EvaluationMapper the environment is symbolic and z3 proves "
                 "equality for every environment. The optimizer's five switches are symbolic booleans (32 combinations, "
-                "coverage-checked) applied to four mapper classes, plus pairs of invocations in one process.",
+                "coverage-checked) applied to four mapper classes, plus pairs of invocations in one process."
+                " Extra arguments are passed positionally and by keyword.",
         "design_ref": "DESIGN.md §4 C05",
         "note": "Trusted: the uncached mapper applied afresh as the oracle. History length 2 (quick) / 3 (thorough).",
         "technique": "bounded model checking of call histories with solver-enumerated selectors and coverage queries; z3 validity queries for the evaluation pair",
@@ -113,7 +118,8 @@ CHECKS = {
                 "whole subscript and look-up nodes, a key that would only match after another replacement, unused keys) the "
                 "real substitute() result (plain and memoizing mapper) is evaluated on z3 proxies and z3 proves per path that "
                 "it equals the original tree evaluated with every replaced name / node bound to its replacement's value. Path "
-                "assertions: untouched subtrees are the identical objects; plain and cached results are equal.",
+                "assertions: untouched subtrees are the identical objects; plain and cached results are equal."
+                " Trees include instances of a user subclass of Variable; map shapes include names that occur as attribute / keyword / prefix names and a mapping combined with keyword arguments.",
         "design_ref": "DESIGN.md §4 C08",
         "note": "Trusted: refsem/evaluator as meaning (C02), proxies, z3. For the memoizing mapper the identity clause is only "
                 "asserted on trees without equal-but-distinct subtrees (memoization shares results between them).",
@@ -127,7 +133,8 @@ CHECKS = {
                 "DependencyMapper and CachedDependencyMapper with an independent outermost-composite scan. get_num_nodes, "
                 "FlopCounter and CSEAwareFlopCounter are compared with independent counts. Solver clause: with composite "
                 "kinds off, evaluating the tree on z3 proxies in an environment binding only the reported variables raises "
-                "UnknownVariableError on no explored path.",
+                "UnknownVariableError on no explored path."
+                " One mapper instance is also driven through a call history (tree, every subexpression, tree) per flag setting; a second fresh flop counter must count the same.",
         "design_ref": "DESIGN.md §4 C09",
         "note": "Trusted: the harness's scan/count specifications and its notion of children (expression-valued dataclass "
                 "fields). Remainder is not counted as a flop (the property lists + * / **).",
@@ -141,7 +148,8 @@ CHECKS = {
                 "non-occurring variable and a subscript in one history; its output is evaluated by the real evaluator at a "
                 "symbolic point and z3 (NRA + uninterpreted elementary functions constrained by ground instances of their "
                 "identities) proves per path that it equals a forward-mode dual-number derivative written in the harness. "
-                "Refusal clauses (non-smooth / unknown functions) are path assertions.",
+                "Refusal clauses (non-smooth / unknown functions) are path assertions."
+                " Kinds with the same operand OBJECT in several positions (s*s, x*y*x, (a+b)/a, a**a) are included.",
         "design_ref": "DESIGN.md §4 C10",
         "note": "Trusted: the dual-number rules in pv/props/c10.py, the evaluator (C02), z3. Reals stand in for floats; points "
                 "of non-differentiability are excluded. A sat model is replayed numerically with the math module and a central "
@@ -156,7 +164,8 @@ CHECKS = {
                 "cases); input and output are evaluated at a symbolic point and z3 (NRA) proves equality for every environment "
                 "on every path where the input evaluates; for flatten and the folders one constant inside the tree is symbolic "
                 "as well. Normal-form clauses are path assertions; for the like-terms clause z3 decides which pairs of "
-                "skeleton polynomials are equal as functions and their expansions must have equal term multisets.",
+                "skeleton polynomials are equal as functions and their expansions must have equal term multisets."
+                " Where the input itself has no value nothing is required of the rewrite.",
         "design_ref": "DESIGN.md §4 C11",
         "note": "Trusted: the evaluator (C02, with integer constants read as exact rationals), z3's nonlinear real arithmetic. "
                 "Term collection is exercised on its documented fragment only.",
@@ -198,7 +207,8 @@ CHECKS = {
                 "environment in range, for every (parent, slot, child) skeleton of the C-expressible fragment in integer mode "
                 "and in real mode. Mapper histories (3 expressions with shared / equal / same-prefix wrappers through one "
                 "mapper and its copies) are checked for unique names, definition before use and single assignment. A "
-                "counterexample is replayed by compiling a real C program with gcc where the skeleton is pure arithmetic.",
+                "counterexample is replayed by compiling a real C program with gcc where the skeleton is pure arithmetic."
+                " Constant exponents 0/1/2 occur in every child position; histories include the same subexpression under different wrappers and a prefix whose generated name is reserved by the caller.",
         "design_ref": "DESIGN.md §4 C14",
         "note": "Trusted: pv/cexpr.py as the meaning of the C text (self-tested against gcc on every run), the evaluator (C02), "
                 "z3. No overflow (values in a stated 64-bit-safe range); // and % only on non-negative dividend / positive "
@@ -214,7 +224,8 @@ CHECKS = {
                 "(thorough: larger shapes, [-2,2]); Euclid's loops are run out by realising divisors; z3 proves per path that "
                 "the solution set over real unknowns is unchanged in both directions. (c) solve_affine_equations_for on 121 "
                 "small systems: z3 proves the returned assignments satisfy every equation for all parameter values; "
-                "uniqueness/integrality oracle by exact rational elimination.",
+                "uniqueness/integrality oracle by exact rational elimination."
+                " Target sets include the empty set.",
         "design_ref": "DESIGN.md §4 C15",
         "note": "Trusted: evaluator (C02) for coefficient expressions, z3, the harness's rational row-reduction oracle. The "
                 "Gaussian-elimination claim is bounded by the entry box.",
@@ -247,7 +258,8 @@ CHECKS = {
                 "(* ^ | << >> scalar) equals the corresponding grade part of an independent list-based blade product, "
                 "associativity on triples, reverse/involution (anti)automorphisms, dual, squared norm, inverse*blade = 1 where "
                 "the blade is non-null; linearity in each argument on multivectors with symbolic coefficients (metrics in "
-                "{1,-1,0,2}); the bit kernels on symbolic bitmaps; ==/hash/bool against coefficient-wise comparison.",
+                "{1,-1,0,2}); the bit kernels on symbolic bitmaps; ==/hash/bool against coefficient-wise comparison."
+                " Two-component vector / pseudovector blades: an inverse, if returned, must be one (replayed with plain rationals).",
         "design_ref": "DESIGN.md §4 C18",
         "note": "Trusted: the list-based blade product oracle, proxies, z3 (NIA). Diagonal metrics only. With bilinearity the "
                 "blade-wise claims extend to all multivectors of the covered dimensions.",
